@@ -16,7 +16,7 @@ from mc import symtree as st
 
 WPE = pg.WritePermissionError
 ACCESSOR_KINDS = ('set', 'del', 'setattr', 'delattr', 'setslice', 'delslice')
-ROOTS = ('dict', 'list', 'obj', 'tdict', 'tlist', 'typedobj', 'rolist')
+ROOTS = ('dict', 'list', 'obj', 'tdict', 'tlist', 'typedobj', 'rolist', 'typed_ro')
 # roots that are sealed when constructed (constructor flag, class default, clone of a sealed value)
 CTOR_SEALED = ('obj_sealed', 'dict_sealed', 'list_sealed', 'sealed_by_default', 'clone_of_sealed')
 
@@ -129,9 +129,18 @@ def run_case(rec, item):
     sealed_eff = (tnode.is_sealed or under_sealed) if s_scope is None else s_scope
     writable_eff = tnode.accessor_writable if a_scope is None else a_scope
     before = snapshot(root)
+    flags_before = {id(n): (keys, n, n.is_sealed, n.accessor_writable) for keys, n, _, _ in st.walk(root)}
     with scopes(cfg):
       r = st.apply_op(w, op)
     after = snapshot(w['roots'][0])
+    # no operation, permitted or refused, may change the protection flags of a node that stays in the tree
+    for keys, n, _, _ in st.walk(w['roots'][0]):
+      was = flags_before.get(id(n))
+      if was is not None and (was[2], was[3]) != (n.is_sealed, n.accessor_writable):
+        rec.viol(f'operation-changed-protection-flags/{base}',
+                 f'{op!r} under cfg={cfg} (outcome {r[:2]}): node at {was[0]} had (sealed, accessor_writable)={was[2:]} and now has '
+                 f'{(n.is_sealed, n.accessor_writable)}', trace)
+        break
     rec.evals += 1
     rec.trans += 1
     raised_wpe = r[0] == 'exc' and isinstance(r[2], WPE)
